@@ -68,4 +68,8 @@ CLAIMED = {
    text="The real plan entry point is run as a subprocess (private cwd and TMPDIR) over generated valid projects (file / '-' / no argument, json / csv, LF / CRLF, with and without own reports in either format, unschedulable tasks) and over the bad-input classes; exit status, stdout bytes (one JSON document with the documented keys and report_id = SHA-256 of the input bytes, or CSV), row content against an independent in-process observation, stderr/stdout separation and file-vs-stdin equality are checked.",
    note="The expected rows come from the API observation of the same text (not from the CLI); trusts click's exit-code propagation and the subprocess harness. About 0.6 s per invocation bounds the case count.",
    technique="property-based testing (Hypothesis) of a subprocess contract with a differential oracle (CLI vs API, file vs stdin)"),
+ "C20": dict(
+   text="Batches of up to 24 (quick) / 96 (thorough) concurrent plan subprocesses in one working directory and one private TMPDIR over mixed inputs (same file many times, identical copies, stdin, both formats, failing inputs, own reports with hostile names, non-UTF-8 bytes); directory listings before/after, exit status and stdout equality with solitary runs, and an strace-based history monitor on every distinct solitary invocation (writes confined to TMPDIR, everything created is removed, no temp name shared between invocations).",
+   note="Interleavings are sampled; the strace clause (name uniqueness + containment per run) is what makes the verdict independent of timing. Falls back to listings only if ptrace is unavailable (noted in the evidence).",
+   technique="property-based testing (Hypothesis) of generated concurrent batches + trace-invariant monitoring (strace) of each run"),
 }
